@@ -202,6 +202,11 @@ def apply(mid: str, m: dict, i: int):
                   dict(type="begin group", name="amb2", label="a"), dict(type="text", name="twice", label="x"), dict(type="end group")])
         r["relevant"] = "${twice} = 1"
         return ["twice"]
+    if mid == "ambiguous_ref_three":
+        for k in (1, 2, 3):
+            S.extend([dict(type="begin group", name=f"amb3{k}", label="a"), dict(type="text", name="thrice", label="x"), dict(type="end group")])
+        r["relevant"] = "${thrice} = 1"
+        return ["thrice"]
     if mid == "unknown_type":
         r["type"] = "texto"
         return ["texto"]
